@@ -15,4 +15,4 @@ def gzip : Handler := fun op args =>
     <|> (GenZipDir.handle Zip.realEnv.cfp GenModule.equalFoldI ModVerif.Semver.canonicalVersion
           (fun p v => match ModVerif.Module.check p v with | .ok _ => true | .error _ => false) op args)
 
-def main : IO Unit := runMain [("zip", Zip.handle), ("dirhash", Dirhash.handle), ("gzip", gzip), ("gdirhash", GenDirhash.handle)]
+def main : IO Unit := runMain [("zip", Zip.handle), ("dirhash", Dirhash.handle), ("gzip", gzip), ("gdirhash", fun op args => (GenDirhash.handle op args) <|> (GenDirhash.handleDir op args))]
